@@ -80,8 +80,10 @@ theorem zipAddAt_spec (s : St) (l1 l2 : Hdr) (pre1 post1 pre2 post2 : List Cell)
         (zipAddAt s l1 l2 a1.1 a2.1 x1 x2 m).2.1.heap b = s.heap b)) := by
   unfold zipAddAt
   refine ⟨fun h1 => by simp [h1], fun h1 h2 => by simp [h1, h2], fun h1 h2 => ?_⟩
+  have hl1 : (s.heap a1.1).isSome = true := Seg_live r.r1.seg a1.1 (by simp)
+  have hl2 : (s.heap a2.1).isSome = true := Seg_live r.r2.seg a2.1 (by simp)
   simp only [h1, h2, Bool.not_true, Bool.false_eq_true, if_false, show s.alloc.1 = s.fresh from rfl,
-    show s.alloc.2.alloc.1 = s.fresh + 1 from rfl]
+    show s.alloc.2.alloc.1 = s.fresh + 1 from rfl, live_some, hl1, hl2, Bool.and_self, Mem.check_true]
   -- the heap after the two allocations and initialisations
   have hne : s.fresh ≠ s.fresh + 1 := by omega
   have h0a : (setData (setData s.alloc.2.alloc.2.heap s.fresh x1) (s.fresh + 1) x2) s.fresh = some ⟨x1, none, none⟩ := by
